@@ -647,6 +647,12 @@ def family_ignore(m, tier):
     ga = open_mod(m, path, 4, "ig_attr", group={"ignore_attr": True, "display": "ig attr"})
     add_bench(m, ga, 8, "inherited")
     close_mod(m, 4)
+    # `#[ignore]` next to other options on the same group / benchmark
+    gao = open_mod(m, path, 4, "igao", group={"ignore_attr": True, "options": [("sample_count", "1"), ("threads", "[1, 2]")]})
+    add_bench(m, gao, 8, "inherited")
+    add_bench(m, gao, 8, "own_false", options=[("ignore", "false")])
+    close_mod(m, 4)
+    add_bench(m, path, 4, "attr_with_options", ignore_attr=True, options=[("sample_size", "1"), ("items_count", "2u32")])
     # a group that sets other options but not `ignore`, inside and outside ignored groups
     gb = open_mod(m, path, 4, "tuned_not_ignored", group={"options": [("sample_count", "1")]})
     add_bench(m, gb, 8, "runs")
